@@ -1391,3 +1391,138 @@ PROPS["C11"] = dict(lean=["ChfVerif.Props.C11"], explore=explore_c11, gen=[gen_t
                     trusted=["gin's recovery middleware (a handler panic becomes a 500 and the process goes on) is modelled",
                              "the go/ast lock-site extractor harness/cmd/locksites.go; 'calls = 0' between Lock and the deferred unlock is syntactic",
                              "the status half is proved for the charging model's inputs only and explored for raw bodies (partial)"])
+
+
+# ------------------------------------------------------------------ C09  (concurrency)
+
+def _mask_state(st):
+    """the global record numbering is assigned in a step of its own (OpenCDR under the context lock): it is
+    unique but need not follow the order of the session counter; compared for uniqueness, not for order"""
+    return re.sub(r",lsn=\d+,", ",lsn=*,", st)
+
+
+def _conc_scenarios(ops, impl):
+    """split the stream at resets: list of (prefix chf lines, batch chf lines, go observation, fu observation, replay lines)"""
+    out, cur = [], None
+    for op, im in zip(ops, impl):
+        t = op.split(" ")
+        if t[1] == "seq" and t[2] == "reset":
+            if cur and cur["go"] is not None:
+                out.append(cur)
+            cur = dict(prefix=["chf reset"], batch=[], go=None, fu=None, replay=[op], bad=None)
+            continue
+        if cur is None:
+            continue
+        cur["replay"].append(op)
+        if t[1] == "seq":
+            cur["prefix"].append("chf " + " ".join(t[2:]))
+            if im.split(" ")[0] in ("panic", "crash", "timeout"):
+                cur["bad"] = im
+        elif t[1] == "par":
+            cur["batch"].append("chf " + " ".join(t[2:]))
+        elif t[1] == "go":
+            cur["go"] = im
+        elif t[1] == "fu":
+            cur["fu"] = im
+    if cur and cur["go"] is not None:
+        out.append(cur)
+    return out
+
+
+def explore_c09(ctx, res, replay_ops=None):
+    import itertools
+    n = n_for(ctx, 24, 200)
+    ops = replay_ops if replay_ops is not None else core.harness_gen(ctx.harness, "conc", ctx.seed, n, ctx.tier, ())
+    h = getattr(ctx, "harness_race", None) or ctx.harness
+    res.extra["race_detector"] = bool(getattr(ctx, "harness_race", None))
+    procs = [4, 16] if ctx.tier == "quick" else [1, 2, 4, 8, 16]
+    for gmp in procs:
+        impl = core.harness_run(h, "conc", ops, env_extra={"GOMAXPROCS": str(gmp), "GORACE": "halt_on_error=0"})
+        se = core.LAST_STDERR.get("conc", "")
+        if "DATA RACE" in se:
+            i = se.index("DATA RACE")
+            res.violation("oracle", "C09: the Go race detector reported a data race (GOMAXPROCS=%d)" % gmp,
+                          ops[:400] + ["# race report:"] + ["# " + l for l in se[max(0, i - 20):i + 3000].split("\n")])
+        if "fatal error" in se or "concurrent map" in se:
+            i = se.find("fatal error")
+            res.violation("oracle", "C09: the process crashed (GOMAXPROCS=%d): %s" % (gmp, se[i:i + 200].replace("\n", " ")),
+                          ops[:400] + ["# " + l for l in se[max(0, i):i + 2000].split("\n")])
+        for sc in _conc_scenarios(ops, impl):
+            res.evaluations += 1
+            k = len(sc["batch"])
+            res.dist["in-flight=%d" % k] += 1
+            res.dist["GOMAXPROCS=%d" % gmp] += 1
+            go = sc["go"]
+            if sc["bad"] or go in ("crash", "panic") or not go.startswith("done="):
+                res.violation("oracle", "C09: crash while requests were in flight (%s)" % (sc["bad"] or go)[:100], sc["replay"] + ["# impl: " + go[:300]])
+                continue
+            if go.startswith("done=0"):
+                res.violation("oracle", "C09: %d concurrent requests did not all return within 20 s (deadlock)" % k, sc["replay"] + ["# impl: " + go])
+                continue
+            gt = go.split(" ")
+            rs = gt[2][2:].split(";")
+            state = _mask_state(" ".join(gt[3:]))
+            res.traces_validated += 1
+            res.nontrivial.add("%d:%s" % (gmp, sc["replay"][-3] if len(sc["replay"]) > 2 else ""))
+            # follow-ups: every acknowledged session can still be updated and released
+            fu = sc["fu"] or "fu=-"
+            if fu != "fu=-":
+                for x in fu[3:].split(","):
+                    if x != "200/204":
+                        res.violation("oracle", "C09: a session whose creation was acknowledged during the batch could not be updated and released afterwards (%s)" % x,
+                                      sc["replay"] + ["# impl: " + go[:400], "# follow-up: " + fu])
+            # the 5xx / panic case
+            if any(x.startswith("st=5") for x in rs):
+                res.violation("oracle", "C09: a concurrent request was answered 5xx", sc["replay"] + ["# impl: " + go[:400]])
+                continue
+            # some serial order of the batch must explain every response and the quiescent state (Lean model)
+            if k <= 5:
+                q, perms = [], list(itertools.permutations(range(k)))
+                for pm in perms:
+                    q += sc["prefix"] + [sc["batch"][i] for i in pm]
+                out = core.driver_run(q)
+                L = len(sc["prefix"]) + k
+                found = None
+                for pi, pm in enumerate(perms):
+                    lines = [strip_annot(x) for x in out[pi * L + len(sc["prefix"]):(pi + 1) * L]]
+                    ok = True
+                    for pos, i in enumerate(pm):
+                        mt = lines[pos].split(" ")
+                        if ",".join(mt[:6]) != rs[i]:
+                            ok = False
+                            break
+                    if ok:
+                        mstate = _mask_state(" ".join(lines[-1].split(" ")[7:]))
+                        if mstate == state:
+                            found = pm
+                            break
+                if found is None:
+                    res.disagreements += 1
+                    res.violation("oracle", "C09: no serial order of the %d concurrent requests explains their responses and the state they left (Lean charging model, all %d orders tried)" % (k, len(perms)),
+                                  sc["replay"] + ["# impl: " + go[:3000]])
+                else:
+                    res.dist["serial-order-found"] += 1
+                    if len(res.samples) < 5:
+                        res.sample({"in_flight": sc["batch"][:3], "responses": rs, "explained_by_order": list(found)})
+            else:
+                # large batches: quiescent-state invariants only (exactly-once recording)
+                seen = re.findall(r"~(\d+)/", state)
+                res.dist["large-batch-invariants"] += 1
+                if len(seen) != len(set(seen)):
+                    res.violation("oracle", "C09: a usage container was recorded more than once", sc["replay"] + ["# impl: " + go[:3000]])
+                want = set(re.findall(r" (\d+)$", b)[0] for b in sc["batch"] if " update " in b or " release " in b)
+                okst = [b for b, x in zip(sc["batch"], rs) if x.startswith("st=200") or x.startswith("st=204")]
+                want = set(re.findall(r" (\d+)$", b)[0] for b in okst if " update " in b or " release " in b)
+                if not want <= set(seen):
+                    res.violation("oracle", "C09: a usage container of an accepted concurrent request is missing from the records", sc["replay"] + ["# impl: " + go[:3000]])
+    res.rule = ("batches of 2-5 (thorough: up to 16) requests released together through the real router, built with the Go race detector, under "
+                "GOMAXPROCS %s: k updates of one session; updates of two sessions + a release + a recharge notification of one subscriber; k creates "
+                "of the same new SUPI; creates and updates of different subscribers. All must return within 20 s; no race report, no fatal error; "
+                "for k <= 5 every permutation of the batch is replayed through the Lean charging model and one of them must reproduce every "
+                "response and the quiescent state exactly (record numbering compared up to order); every session acknowledged in the batch "
+                "is then updated and released; for larger batches: exactly-once recording of the accepted containers" % procs)
+
+
+PROPS["C09"] = dict(lean=["ChfVerif.Props.C09"], explore=explore_c09, race=True,
+                    trusted=["the Go race detector and scheduler: interleavings are sampled, not enumerated (the theorem is about atomic steps; that the code's steps are atomic is what the runs test)",
+                             "go-diameter and the in-memory store under concurrency"])
